@@ -24,8 +24,7 @@ Definition ub_cwise   : Z := 116.    (* Eigen/src/Core/CwiseBinaryOp.h:116 same 
 Definition ub_index   : Z := 1.      (* DenseCoeffsBase / Block index in range *)
 Definition ub_map     : Z := 2.      (* Map(ptr,n) with n beyond the mapped std::vector: silent out-of-bounds read *)
 Definition ub_resize  : Z := 261.    (* DenseBase.h:261 resize of a Map / fixed destination *)
-Definition ub_desync  : Z := 3.
-Definition ub_alias   : Z := 5.      (* dest.noalias() = expression reading dest: Eigen's no-aliasing precondition is violated *)      (* Eigen storage resized while AMatrix::_nRows/_nCols keep the old values *)
+Definition ub_desync  : Z := 3.      (* Eigen storage resized while AMatrix::_nRows/_nCols keep the old values *)
 
 (* ------------------------------------------------------------------ dense storage *)
 (* Eigen::MatrixXd, column-major: AMatrixDense::_getIndexToRank  AMatrixDense.cpp:138 *)
@@ -160,22 +159,9 @@ Definition G_prodMatMat (sym : bool) (d x y : dense) (tx ty : bool) : res dense 
   else Ok (loop_set sym (rowmajor ni1 nm2)
              (fun i j _ => sumn nm1 (fun k => (if tx then getv x k i else getv x i k) *
                                               (if ty then getv y j k else getv y k j))) d).
-(* the same loop nest when the receiver itself is passed as x and/or y (e.g. AMatrix::prodMatInPlace AMatrix.cpp:1374 =
-   prodMatMatInPlace(this, matY, false, transposeY)): the operand is read from the partially overwritten receiver *)
-Definition G_prodMatMat_alias (sym : bool) (d x y : dense) (tx ty ax ay : bool) : res dense :=
-  let ni1 := if tx then nc x else nr x in
-  let nm1 := if tx then nr x else nc x in
-  let ni2 := if ty then nc y else nr y in
-  let nm2 := if ty then nr y else nc y in
-  if negb (nm1 =? ni2)%nat then Ok d
-  else if (0 <? ni1)%nat && (0 <? nm2)%nat && negb (covers d ni1 nm2) then UB ub_index
-  else Ok (fold_left (fun s p =>
-             let i := fst p in let j := snd p in
-             let xs := if ax then s else x in let ys := if ay then s else y in
-             if present sym i j
-             then setValue sym s i j (sumn nm1 (fun k => (if tx then getv xs k i else getv xs i k) *
-                                                         (if ty then getv ys j k else getv ys k j)))
-             else s) (rowmajor ni1 nm2) d).
+(* the receiver itself passed as x and/or y (e.g. AMatrix::prodMatInPlace AMatrix.cpp:1382 = prodMatMatInPlace(this, matY,
+   false, transposeY)): AMatrix.cpp:583 clones the receiver and runs the product on the copy, i.e. on the VALUES x, y *)
+Definition G_prodMatMat_alias (sym : bool) (d x y : dense) (tx ty ax ay : bool) : res dense := G_prodMatMat sym d x y tx ty.
 (* AMatrix::prodNormMatMatInPlace AMatrix.cpp:620 *)
 Definition G_prodNormMatMat (sym : bool) (d a m : dense) (t : bool) : res dense :=
   let n1 := if t then nc a else nr a in
@@ -339,9 +325,9 @@ Definition D_prodVecMat (d : dense) (x : list Q) (t : bool) : res (list Q) :=
 (* AMatrixDense::prodMatMatInPlace AMatrixDense.cpp:259 (both operands dense) *)
 Definition D_prodMatMat (d x y : dense) (tx ty : bool) : res dense :=
   rbind (e_mul tx ty x y) (e_store d).
-(* the same call with the receiver passed as an operand: "_eigenMatrix.noalias() = ..." reads the matrix it writes *)
-Definition D_prodMatMat_alias (d x y : dense) (tx ty ax ay : bool) : res dense :=
-  if ax || ay then UB ub_alias else D_prodMatMat d x y tx ty.
+(* the same call with the receiver passed as an operand: AMatrixDense.cpp:267 copies both operands and assigns their
+   product without noalias(): same contract and same result as with distinct objects *)
+Definition D_prodMatMat_alias (d x y : dense) (tx ty ax ay : bool) : res dense := D_prodMatMat d x y tx ty.
 (* AMatrix::prodMatInPlace AMatrix.cpp:1374 on a dense receiver with a dense operand *)
 Definition D_prodMatInPlace (d y : dense) (ty : bool) : res dense := D_prodMatMat_alias d d y false ty true false.
 (* AMatrixDense::prodNormMatMatInPlace AMatrixDense.cpp:308 *)
